@@ -219,11 +219,24 @@ def ops_chain(f, emit_calls):
     return chain
 
 
-OPS_POS = {'print_i': 6, 'print_s': 5, 'print_f': 5}
+def ops_positions(mod):
+    """formatting routine -> position of its directive-word parameter (routines without one are left out)"""
+    tab = getattr(mod, '_c06_ops_pos', None)
+    if tab is None:
+        tab = {}
+        for name, g in emitter_functions(mod).items():
+            n = flag_param(g)
+            if n is not None:
+                tab[name] = n
+        if not tab:
+            raise AnalysisBroken('%s: no formatting routine with a directive-word parameter was found' % SRC)
+        mod._c06_ops_pos = tab
+    return tab
 
 
 def emitter_calls(f):
-    return [(c, OPS_POS[c.callee]) for c in f.calls(pred=lambda n: n in OPS_POS)]
+    tab = ops_positions(f.mod)
+    return [(c, tab[c.callee]) for c in f.calls(pred=lambda n: n in tab)]
 
 
 def const_or_select(f, v):
@@ -290,7 +303,7 @@ def parser_tables(mod):
     if not chain:
         raise AnalysisBroken('__printf: no directive word reaches the formatting routines')
     flags, lens, where = {}, {}, {}
-    prec = upper = clear = None
+    prec = upper = clear = prec_ld = None
     outer = directive_loop(f)
     for k in sorted(chain):
         i = f.insts[k[1]]
@@ -332,13 +345,15 @@ def parser_tables(mod):
                             where[chr(ch)] = where[chr(ch) * 2] = i.where()
                 elif k_ne == 0 and val == ord('.'):
                     prec = k_eq
+                    prec_ld = ld
                     where['.'] = i.where()
         elif i.op == 'and':
             for o in i.ops:
                 if o.k == 'ci':
                     clear = (~o.ival) & 0xffffffff
                     where['<clear>'] = i.where()
-    return {'flags': flags, 'prec': prec, 'len': lens, 'upper': upper, 'clear_prec': clear, 'where': where}
+    return {'flags': flags, 'prec': prec, 'len': lens, 'upper': upper, 'clear_prec': clear, 'where': where,
+            'prec_load': prec_ld}
 
 
 # ----------------------------------------------------------------------------------------------
@@ -788,6 +803,7 @@ def dispatch(mod):
     L = directive_loop(f)
     chain = ops_chain(f, emitter_calls(f))
     aw, ap = field_sources(f)
+    OPS_POS = ops_positions(mod)
     out = {}
     for case in sw.d['cases']:
         ch = case['v']
@@ -802,8 +818,9 @@ def dispatch(mod):
                     # is the call on the path of this character?  (shared blocks: evaluate the guards we can)
                     args = [pe.ev(a) for a in i.ops]
                     bits, root = pe.extra_bits(i.ops[OPS_POS[i.callee]], chain)
+                    ops_root = root
                     srcs = [leaf_sources(f, a) for a in i.ops]
-                    calls.append({'callee': i.callee, 'call': i, 'args': args, 'extra_bits': bits,
+                    calls.append({'callee': i.callee, 'call': i, 'args': args, 'extra_bits': bits, 'ops_root': ops_root,
                                   'ops_root_in_chain': root.k == 'inst' and root.key() in chain, 'srcs': srcs})
                 elif i.callee is None and i.d.get('callee', {}).get('k') == 'arg' and i.d['callee'].get('i') == HANDLER:
                     handler.append({'call': i, 'arg': pe.ev(i.ops[1]) if len(i.ops) > 1 else None,
@@ -819,6 +836,188 @@ def is_field(srcs, atoi_call):
     others = [s for s in srcs if s[0] not in ('call', 'load', 'const')]
     return calls == [('call', 'atoi', atoi_call.id)] and not others and \
         all(s[1] == 0 for s in srcs if s[0] == 'const')
+
+
+# ----------------------------------------------------------------------------------------------
+# the parser executed symbolically up to the conversion switch
+# ----------------------------------------------------------------------------------------------
+def maybits(f, chain):
+    """value of the directive-word chain -> mask of the bits that may be set in it (constants, or / and / phi / select of
+    chain members; anything else may set every bit)"""
+    ALL = 0xffffffff
+    m = {k: 0 for k in chain}
+
+    def of(v):
+        if v.k == 'ci':
+            return v.ival & ALL
+        if v.k == 'inst' and v.key() in m:
+            return m[v.key()]
+        if v.k == 'inst':
+            i = f.insts[v.id]
+            if i.op == 'select' and i.ty.get('bits') == 32:
+                return of(i.ops[1]) | of(i.ops[2])
+        return ALL
+    changed = True
+    while changed:
+        changed = False
+        for k in chain:
+            i = f.insts[k[1]]
+            if i.op == 'or':
+                new = of(i.ops[0]) | of(i.ops[1])
+            elif i.op == 'and':
+                new = of(i.ops[0]) & of(i.ops[1])
+            elif i.op == 'phi':
+                new = 0
+                for o in i.ops:
+                    new |= of(o)
+            elif i.op == 'select':
+                new = of(i.ops[1]) | of(i.ops[2])
+            else:
+                new = ALL
+            if new != m[k]:
+                m[k] = new
+                changed = True
+    return m
+
+
+def static_exit_loop(fn, L):
+    """every exit test of the loop reads only loop-invariant values (R-LOOPVAR reports such a loop; the executor treats
+    it exactly: it is left during the first pass or never)"""
+    inv, is_inv = loop_invariant_values(fn, L)
+    for (src, dst) in L['exits']:
+        t = src.term
+        if t.op == 'br' and 'f' in t.d:
+            if not is_inv(t.ops[0]):
+                return False
+        elif t.op == 'switch':
+            if not is_inv(t.ops[0]):
+                return False
+        else:
+            return False
+    return True
+
+
+FMT = ('fmt',)
+CLASSIFIERS = ('isdigit', 'isupper', 'islower', 'isalpha', 'isalnum', 'isxdigit', 'isspace', 'tolower', 'toupper')
+
+
+def digit_class_sym(sx, byte):
+    return Lin.sym(sx.opq('ext', 'isdigit', (vkey(byte),)))
+
+
+def atoi_model(sx, st, fn, i, args):
+    """atoi of text inside the format: a non-negative number (grammar: a field is a run of digits, no sign, no blanks) that
+    is 0 when the first character is not a digit"""
+    p = args[0]
+    if not (isinstance(p, P) and p.base == sx.fmt_base):
+        return None
+    r = Lin.sym(sx.opq('ext', 'atoi', vkey(p)))
+    st.cons.add_le(0, r)
+    byte = Lin.sym(sx.opq('byte', p.key()))
+    sx.atoi_tab[next(iter(r.t))] = (r, digit_class_sym(sx, byte))
+    return r
+
+
+def fmt_args():
+    return [P(('fn', 'handler')), P(('arg', 1)), P(FMT), P(('arg', VALIST))]
+
+
+class ParserRun:
+    """__printf executed symbolically from its entry to the switch over the conversion character, the formatting routines
+    never reached.  The states collected there relate the text of the directive (bytes of the format, results of atoi,
+    arguments fetched for '*') to the width, the precision and the directive word that the routines will receive."""
+
+    def __init__(self, mod, T, D):
+        self.mod, self.T, self.D = mod, T, D
+        f = self.f = mod.fn('__printf')
+        swb = D['switch'].block
+        chain = ops_chain(f, emitter_calls(f))
+        mb = maybits(f, chain)
+        bw = {}
+        for k in chain:
+            i = f.insts[k[1]]
+            if i.op == 'phi' and any(i.block is L['header'] for L in f.loops):
+                if mb[k] == 0xffffffff:
+                    raise AnalysisBroken('__printf: the directive word is combined with values the bit analysis does not follow')
+                bw[('__printf', i.id)] = mb[k]
+        self.sx = sx = SX(mod, handler_arg=HANDLER, emitters=list(emitter_functions(mod)), fmt_base=FMT,
+                          cut_blocks={('__printf', swb.name)}, bitword_phis=bw, static_exit=static_exit_loop,
+                          pure_by_args=CLASSIFIERS, models={'atoi': atoi_model})
+        sx.atoi_tab = {}
+        st = sx.start(f, fmt_args())
+        self.rets = sx.run_function(f, st)
+        self.states = sx.cut_states.get(swb.name, [])
+        if not self.states:
+            raise AnalysisBroken('__printf: no path reaches the switch over the conversion character')
+        # the operands the routines receive, as values available at the switch
+        self.W, self.PR, self.OPS = set(), set(), set()
+        for ch, e in D['table'].items():
+            for c in e['calls']:
+                g = mod.fn(c['callee'])
+                for n, p in enumerate(g.params):
+                    if p['ty'].get('k') != 'int' or c['args'][n] is not None:
+                        continue
+                    if is_field(c['srcs'][n], D['width_atoi']):
+                        self.W.add(c['call'].ops[n].key())
+                    elif is_field(c['srcs'][n], D['prec_atoi']):
+                        self.PR.add(c['call'].ops[n].key())
+                self.OPS.add(c['ops_root'].key())
+        for nm, ks in (('width', self.W), ('precision', self.PR), ('directive word', self.OPS)):
+            if len(ks) != 1:
+                raise AnalysisBroken('__printf: the formatting routines receive %d different %s values' % (len(ks), nm))
+            k = next(iter(ks))
+            if k[0] != 'i' or not f.dominates_block(f.insts[k[1]].block, swb):
+                raise AnalysisBroken('__printf: the %s is not computed before the conversion switch' % nm)
+        self.W, self.PR, self.OPS = (next(iter(x)) for x in (self.W, self.PR, self.OPS))
+        # '*' fetches: the va_arg loads among the sources of width / precision
+        self.star = {}
+        for nm, k in (('w', self.W), ('p', self.PR)):
+            lds = [s[1] for s in leaf_sources(f, V({'k': 'inst', 'id': k[1]})) if s[0] == 'load']
+            self.star[nm] = lds
+        self.pbit = T['prec'].bit_length() - 1 if T['prec'] else None
+        self.lbit = T['flags']['-'].bit_length() - 1 if T['flags'].get('-') else None
+        self.prepare()
+
+    def prepare(self):
+        """per state: resolve atoi of a non-digit to 0; add the grammar assumption (the character after the width field is
+        not a digit: after a literal width that is what ended the scan, after '*' it is the grammar)"""
+        sx = self.sx
+        ld = self.T.get('prec_load')
+        for s in self.states:
+            if ld is not None:
+                b = s.env.get(('i', ld.id))
+                if isinstance(b, Lin):
+                    s.cons.add_eq(digit_class_sym(sx, b), 0)
+            for (r, d) in sx.atoi_tab.values():
+                if s.cons.entails_eq(d, 0):
+                    s.cons.add_eq(r, 0)
+
+    def bit(self, s, n):
+        """value of bit n of the directive word in state s: 0, 1 or a Lin 0/1 symbol; None when not decomposed"""
+        v = s.env.get(self.OPS)
+        d = SX.bw_decode(v) if isinstance(v, Lin) else None
+        if d is None:
+            return None
+        c, bits = d
+        if n in bits:
+            return Lin.sym(bits[n])
+        return Lin((c >> n) & 1)
+
+    def split(self, s, c):
+        """[(state, truth)] refinements of a copy of s by condition c"""
+        return self.sx.branch(s.fork(), c)
+
+    def all_states(self, pred):
+        """pred(state) -> True | False | None(not applicable); returns (number applicable, first failing state)"""
+        n, bad = 0, None
+        for s in self.states:
+            r = pred(s)
+            if r is None:
+                continue
+            n += 1
+            if not r and bad is None:
+                bad = s
+        return n, bad
 
 
 # ----------------------------------------------------------------------------------------------
